@@ -54,14 +54,20 @@ Definition check_match (c : json) : json :=
       else true
     else true in
   let unmodified := jfB "unmodified" c in
+  (* the Go-typed twin (core.Map, []string, []core.Map, typed empty slices) of the same triple:
+     same answer as the JSON form (judged inside the fragment only: outside it the answer
+     may depend on Go's map order), inputs untouched (type-sensitively) *)
+  let typed_agree := negb frag || match jget "typed_agree" c with Some (JBool b) => b | _ => true end in
+  let typed_unmod := match jget "typed_unmodified" c with Some (JBool b) => b | _ => true end in
   let kf := ((if risk then ["D10"] else []) ++ (if negb gr then ["D12"] else []) ++
              (if ineq then ["D11"] else []))%list in
   let nres := match m with Ok bss => length bss | _ => O end in
   JObj [("ok", JBool model_ok);
         ("why", JStr (if model_ok then "" else String.append "model says " (outcome_class m)));
         ("model", match m with Ok bss => JArr (map json_of_bs bss) | _ => JStr (outcome_class m) end);
-        ("spec_ok", JBool (spec_ok && unmodified));
-        ("spec_why", JStr (if negb unmodified then "pattern, data or initial bindings were modified by the call"
+        ("spec_ok", JBool (spec_ok && unmodified && typed_agree && typed_unmod));
+        ("spec_why", JStr (if negb unmodified || negb typed_unmod then "pattern, data or initial bindings were modified by the call"
+                           else if negb typed_agree then "Go-typed inputs (core.Map, []string, ...) give another answer than their JSON form"
                            else if spec_ok then "" else "observed result set differs from the set of partial-match layings"));
         ("kf", jstrs_of kf);
         ("nontrivial", JBool (frag && negb (Nat.eqb (length (pvars p)) 0)));
